@@ -1,0 +1,16 @@
+//go:build verif
+
+package outlier
+
+// VerifRuleOfResource returns a copy of the outlier ejection rule in force for res and whether the
+// circuit breaker rule kept for res is the one embedded in it. Verification builds only.
+func VerifRuleOfResource(res string) (rule Rule, ok bool, breakerRuleConsistent bool) {
+	updateMux.RLock()
+	defer updateMux.RUnlock()
+	r, exist := outlierRules[res]
+	br, bexist := breakerRules[res]
+	if !exist || r == nil {
+		return Rule{}, false, !bexist
+	}
+	return *r, true, bexist && br == r.Rule
+}
